@@ -52,6 +52,18 @@ class PIte:
 NULL = Ptr(None, 0)
 
 
+class Quot:
+    """lazily divided real value num/den (den != 0 on the path): comparisons are cross-multiplied
+    so that no division reaches the solver."""
+    __slots__ = ('n', 'd')
+
+    def __init__(self, n, d):
+        self.n, self.d = n, d
+
+    def __neg__(self):
+        return Quot(-self.n if is_conc(self.n) else -zreal(self.n), self.d)
+
+
 def is_conc(v):
     return isinstance(v, (int, Fraction, bool))
 
@@ -61,6 +73,8 @@ def zint(v):
 
 
 def zreal(v):
+    if isinstance(v, Quot):
+        return zreal(v.n) / zreal(v.d)
     if isinstance(v, Fraction):
         return z3.RealVal(v)
     if isinstance(v, int):
@@ -107,6 +121,8 @@ def same(a, b):
         return a.eq(b)
     if isinstance(a, Ptr) and isinstance(b, Ptr):
         return a.obj == b.obj and same(a.off, b.off)
+    if isinstance(a, Quot) and isinstance(b, Quot):
+        return same(a.n, b.n) and same(a.d, b.d)
     if isinstance(a, (list, tuple)) and isinstance(b, (list, tuple)) and len(a) == len(b):
         return all(same(x, y) for x, y in zip(a, b))
     return False
@@ -137,6 +153,10 @@ def ite(c, a, b, ty=None):
         return b
     if b is UNDEF:
         return a
+    if isinstance(a, Quot) or isinstance(b, Quot):
+        qa = a if isinstance(a, Quot) else Quot(a, Fraction(1))
+        qb = b if isinstance(b, Quot) else Quot(b, Fraction(1))
+        return Quot(ite(c, qa.n, qb.n), ite(c, qa.d, qb.d))
     if isinstance(a, bool) or isinstance(b, bool) or z3.is_bool(a) or z3.is_bool(b):
         return z3.If(c, zbool(a), zbool(b))
     if isinstance(a, Fraction) or isinstance(b, Fraction) or (isinstance(a, z3.ExprRef) and a.is_real()) \
@@ -304,13 +324,18 @@ class Engine:
         self.concrete_inputs = self.opts.get('concrete_inputs')  # callable(kind, lo, hi) or None
         self.witness = []
         self.solver = z3.Solver()
-        self.solver.set('timeout', self.opts.get('branch_timeout_ms', 20000))
+        self.solver.set('timeout', self.opts.get('branch_timeout_ms', 1500))
         self.uf = {}
         self.axioms = []
         self.overrides = self.opts.get('overrides', {})
         self.stats = {'forks': 0, 'merges': 0, 'feas_queries': 0, 'instrs': 0}
         self.fp_exact_check = self.opts.get('fp_exact', False)
         self.encoded = set()
+        self.splits = []
+        self.abs = {}
+        self.abs_keep = []
+        self.exact_ops = 0
+        self.inexact = []
 
     # ---------------------------------------------------------- helpers
     def fresh(self, kind, tag):
@@ -515,6 +540,19 @@ class Engine:
             if o.zero:
                 return self.zero_of(t)
             return UNDEF
+        if t.kind == 'int' and c[0] * 2 == n:
+            c2 = o.cells.get(off + c[0])
+            if c2 is not None and c2[0] == c[0]:
+                lo, hi = c[1], c2[1]
+                hb = c[0] * 8
+                if isinstance(lo, int) and isinstance(hi, int) and not isinstance(lo, bool) and not isinstance(hi, bool):
+                    v = (lo & ((1 << hb) - 1)) | ((hi & ((1 << hb) - 1)) << hb)
+                    if v >= 1 << (n * 8 - 1):
+                        v -= 1 << (n * 8)
+                    return v
+                if not isinstance(lo, (Ptr, PIte, Fraction)) and not isinstance(hi, (Ptr, PIte, Fraction)) \
+                        and lo is not UNDEF and hi is not UNDEF:
+                    return self.simp(zint(self.to_unsigned(lo, hb)) + zint(hi) * (1 << hb))
         raise Unsupported('load of %d bytes from a %d-byte cell (%s)' % (n, c[0], where))
 
     def retype(self, v, t):
@@ -696,6 +734,9 @@ class Engine:
                 raise Unsupported('arithmetic on inf/nan constant')
             if a is UNDEF or b is UNDEF:
                 return UNDEF
+            if isinstance(a, Quot) or isinstance(b, Quot) or (op == 'fdiv' and self.opts.get('lazy_div', True)
+                                                               and not is_conc(b)):
+                return self.quot_op(st, op, a, b, where)
             if op == 'fadd':
                 r = a + b if is_conc(a) and is_conc(b) else zreal(a) + zreal(b)
             elif op == 'fsub':
@@ -715,9 +756,8 @@ class Engine:
                     r = zreal(a) / zreal(b)
             else:
                 raise Unsupported('fp op ' + op)
-            if self.fp_exact_check and op != 'fdiv' and not is_conc(r):
-                self.oblige(st, 'exact', 'result of %s is an integer below 2^53' % op,
-                            z3.And(z3.IsInt(r), r <= 2 ** 53, r >= -2 ** 53), where)
+            if self.fp_exact_check:
+                self.track_exact(op, a, b, r, where)
             return r
         bits = t.bits
         if bits == 1:
@@ -835,6 +875,99 @@ class Engine:
             raise Unsupported('bitwise %s on symbolic integers' % op)
         raise Unsupported('binop ' + op)
 
+    # ---- exactness bridge: integrality + magnitude tracking of real-valued terms (sound abstract
+    # interpretation; a +,-,* whose operands are integers and whose result is below 2^53 is exact in IEEE)
+    def absinfo(self, v):
+        if isinstance(v, (int, Fraction)) and not isinstance(v, bool):
+            f = Fraction(v)
+            return (f.denominator == 1, abs(f))
+        if isinstance(v, z3.ExprRef):
+            i = self.abs.get(v.get_id())
+            if i is not None:
+                return i
+            if z3.is_app(v) and v.decl().kind() == z3.Z3_OP_ITE:
+                a, b = self.absinfo(v.arg(1)), self.absinfo(v.arg(2))
+                if a and b:
+                    return (a[0] and b[0], max(a[1], b[1]))
+        return None
+
+    def track_exact(self, op, a, b, r, where):
+        ia, ib = self.absinfo(a), self.absinfo(b)
+        ok = False
+        if ia and ib and ia[0] and ib[0]:
+            if op in ('fadd', 'fsub'):
+                bound = ia[1] + ib[1]
+            else:
+                bound = ia[1] * ib[1]
+            if isinstance(r, z3.ExprRef):
+                self.abs[r.get_id()] = (True, bound)
+                self.abs_keep.append(r)
+            ok = bound <= 2 ** 53
+        self.exact_ops += 1
+        if not ok:
+            self.inexact.append('%s at %s' % (op, where))
+
+    def rmul(self, a, b):
+        if is_conc(a) and is_conc(b):
+            return a * b
+        if is_conc(a) and a == 1:
+            return b
+        if is_conc(b) and b == 1:
+            return a
+        return zreal(a) * zreal(b)
+
+    def radd(self, a, b, sub=False):
+        if is_conc(a) and is_conc(b):
+            return a - b if sub else a + b
+        return zreal(a) - zreal(b) if sub else zreal(a) + zreal(b)
+
+    def quot_op(self, st, op, a, b, where):
+        qa = a if isinstance(a, Quot) else Quot(a, Fraction(1))
+        qb = b if isinstance(b, Quot) else Quot(b, Fraction(1))
+        if op in ('fadd', 'fsub'):
+            if same(qa.d, qb.d):
+                return Quot(self.radd(qa.n, qb.n, op == 'fsub'), qa.d)
+            return Quot(self.radd(self.rmul(qa.n, qb.d), self.rmul(qb.n, qa.d), op == 'fsub'), self.rmul(qa.d, qb.d))
+        if op == 'fmul':
+            return Quot(self.rmul(qa.n, qb.n), self.rmul(qa.d, qb.d))
+        if op == 'fdiv':
+            den = self.rmul(qa.d, qb.n)
+            if is_conc(den):
+                if den == 0:
+                    self.oblige(st, 'fpspecial', 'floating division by zero', False, where)
+                    st.pc = False
+                    return UNDEF
+            else:
+                nz = zreal(qb.n) != 0
+                self.oblige(st, 'fpspecial', 'floating division by zero', nz, where)
+                st.pc = p_and(st.pc, nz)
+            return Quot(self.rmul(qa.n, qb.d), den)
+        raise Unsupported('fp op %s on lazily divided value' % op)
+
+    def quot_cmp(self, p, a, b):
+        qa = a if isinstance(a, Quot) else Quot(a, Fraction(1))
+        qb = b if isinstance(b, Quot) else Quot(b, Fraction(1))
+        if same(qa.d, qb.d):
+            N, D = self.radd(qa.n, qb.n, True), qa.d
+        else:
+            N = self.radd(self.rmul(qa.n, qb.d), self.rmul(qb.n, qa.d), True)
+            D = self.rmul(qa.d, qb.d)
+        N, D = zreal(N), zreal(D)
+        if p == 'eq':
+            return N == 0
+        if p == 'ne':
+            return N != 0
+        pos, neg = D > 0, D < 0
+        if p == 'gt':
+            return z3.Or(z3.And(pos, N > 0), z3.And(neg, N < 0))
+        if p == 'ge':
+            return z3.Or(z3.And(pos, N >= 0), z3.And(neg, N <= 0))
+        if p == 'lt':
+            return z3.Or(z3.And(pos, N < 0), z3.And(neg, N > 0))
+        if p == 'le':
+            return z3.Or(z3.And(pos, N <= 0), z3.And(neg, N >= 0))
+        raise Unsupported('quot cmp ' + p)
+
     def icmp(self, st, pred, a, b, ty):
         t = self.mod.resolve(ty)
         if t.kind == 'ptr' or isinstance(a, (Ptr, PIte)) or isinstance(b, (Ptr, PIte)):
@@ -909,6 +1042,8 @@ class Engine:
         p = pred[1:]
         if is_conc(a) and is_conc(b):
             return {'eq': a == b, 'ne': a != b, 'gt': a > b, 'ge': a >= b, 'lt': a < b, 'le': a <= b}[p]
+        if isinstance(a, Quot) or isinstance(b, Quot):
+            return self.simp(self.quot_cmp(p, a, b))
         za, zb = zreal(a), zreal(b)
         return self.simp({'eq': za == zb, 'ne': za != zb, 'gt': za > zb, 'ge': za >= zb, 'lt': za < zb, 'le': za <= zb}[p])
 
@@ -1186,7 +1321,7 @@ class Engine:
             v = ci(kind, lo, hi)
             self.inputs.append((kind, v))
             return v
-        if kind in ('int', 'uint', 'long', 'uchar', 'range', 'grid'):
+        if kind in ('int', 'uint', 'long', 'uchar', 'range'):
             v = self.fresh('int', 'in')
         elif kind == 'bool':
             v = self.fresh('bool', 'in')
@@ -1232,8 +1367,10 @@ class Engine:
             v = self.nondet('grid', -m if isinstance(m, int) else None, m)
             if is_conc(v):
                 return True, Fraction(v)
-            st.pc = p_and(st.pc, z3.And(v >= -zint(m), v <= zint(m)))
-            return True, z3.ToReal(v)
+            st.pc = p_and(st.pc, z3.And(z3.IsInt(v), v >= zreal(m) * -1, v <= zreal(m)))
+            if isinstance(m, int):
+                self.abs[v.get_id()] = (True, abs(m))
+            return True, v
         if name == 'vf_assume':
             c = args[0]
             st.pc = p_and(st.pc, c if isinstance(c, bool) else zbool(c))
@@ -1248,6 +1385,13 @@ class Engine:
             return True, None
         if name == 'vf_witness':
             self.witness.append(st.pc)
+            return True, None
+        if name == 'vf_split':
+            c = args[0]
+            if not isinstance(c, bool) and c is not UNDEF:
+                c = zbool(c)
+                if not any(c.eq(x) for x in self.splits):
+                    self.splits.append(c)
             return True, None
         if name in ('vf_out_int', 'vf_out_double'):
             self.outputs.append(args[0])
@@ -1507,7 +1651,7 @@ class Engine:
         c = callee
         while c.k == 'cexpr' and c.v == 'bitcast':
             c = c.ops[0]
-        args = [self.val(st, fr, a) for a in ins.ops[1:]]
+        args = [self.val(st, fr, a) if a.k != 'meta' else None for a in ins.ops[1:]]
         if c.k == 'global':
             name = c.v
         else:
@@ -1733,31 +1877,112 @@ class Engine:
 
 
 # ------------------------------------------------------------------ discharge
-def discharge(eng, obls, timeout_ms=60000, axioms=(), logic=None):
-    """decide every obligation: unsat(pc & !cond) = holds within the bound."""
-    res = []
-    s = z3.Solver()
-    s.set('timeout', timeout_ms)
-    for a in axioms:
-        s.add(a)
-    for o in obls:
-        t0 = time.time()
+_TASKS = []
+_TMO = 60000
+_AX = ()
+_INPUTS = []
+
+
+def _model_vals(m):
+    out = []
+    for kind, v in _INPUTS:
+        if isinstance(v, (int, bool, Fraction)):
+            out.append(str(v))
+            continue
+        val = m.eval(v, model_completion=True)
+        if z3.is_int_value(val):
+            out.append(str(val.as_long()))
+        elif z3.is_rational_value(val):
+            out.append('%d/%d' % (val.numerator_as_long(), val.denominator_as_long()))
+        elif z3.is_true(val) or z3.is_false(val):
+            out.append('1' if z3.is_true(val) else '0')
+        elif z3.is_algebraic_value(val):
+            a = val.approx(40)
+            out.append('%d/%d' % (a.numerator_as_long(), a.denominator_as_long()))
+        else:
+            out.append('0')
+    return out
+
+
+def _solve(ti):
+    q = _TASKS[ti]
+    t0 = time.time()
+    r = z3.unknown
+    mv = None
+    # portfolio: plain SMT core first (best on the nonlinear real queries met here), then z3's default strategy
+    for mode, share in (('smt', 0.5), ('default', 0.5)):
+        s = z3.SimpleSolver() if mode == 'smt' else z3.Solver()
+        s.set('timeout', max(1000, int(_TMO * share)))
+        for a in _AX:
+            s.add(a)
+        s.add(q)
+        r = s.check()
+        if r == z3.sat:
+            mv = _model_vals(s.model())
+        if r != z3.unknown:
+            break
+    return ti, str(r), time.time() - t0, mv
+
+
+def discharge(eng, obls, timeout_ms=60000, axioms=(), jobs=8, max_cases=4096):
+    """decide every obligation: unsat(pc & !cond) = holds within the bound.  Assert obligations are
+    split over the harness's vf_split() predicates (exhaustive case analysis, decided in parallel)."""
+    global _TASKS, _TMO, _AX, _INPUTS
+    import multiprocessing as mp
+    tasks = []
+    owner = []
+    splits = getattr(eng, 'splits', [])
+    for oi, o in enumerate(obls):
         if o.cond is False:
             q = o.pc
         else:
             q = p_and(o.pc, p_not(o.cond if isinstance(o.cond, bool) else zbool(o.cond)))
+        q = eng.simp(q) if not isinstance(q, bool) else q
+        o.cases = 0
+        o.model_vals = None
         if q is False:
             o.verdict = 'unsat'
             o.seconds = 0.0
             o.trivial = True
             continue
         o.trivial = False
-        s.push()
-        s.add(q if not isinstance(q, bool) else z3.BoolVal(q))
-        r = s.check()
-        o.verdict = str(r)
-        if r == z3.sat:
-            o.model = s.model()
-        s.pop()
-        o.seconds = time.time() - t0
+        q = zbool(q)
+        if o.kind == 'assert' and splits and 2 ** len(splits) <= max_cases:
+            for bits in itertools.product((True, False), repeat=len(splits)):
+                lits = [c if b else z3.Not(c) for c, b in zip(splits, bits)]
+                tasks.append(z3.And([q] + lits))
+                owner.append(oi)
+                o.cases += 1
+        else:
+            tasks.append(q)
+            owner.append(oi)
+            o.cases = 1
+    _TASKS, _TMO, _AX, _INPUTS = tasks, timeout_ms, tuple(axioms), eng.inputs
+    results = []
+    if tasks:
+        if jobs > 1 and len(tasks) > 1:
+            ctx = mp.get_context('fork')
+            with ctx.Pool(min(jobs, len(tasks))) as pool:
+                results = list(pool.imap_unordered(_solve, range(len(tasks)), chunksize=1))
+        else:
+            results = [_solve(i) for i in range(len(tasks))]
+    agg = {}
+    for ti, r, dt, mv in results:
+        oi = owner[ti]
+        a = agg.setdefault(oi, {'sat': 0, 'unsat': 0, 'unknown': 0, 'secs': 0.0, 'mv': None})
+        a[r if r in a else 'unknown'] += 1
+        a['secs'] += dt
+        if mv is not None and a['mv'] is None:
+            a['mv'] = mv
+    for oi, a in agg.items():
+        o = obls[oi]
+        o.seconds = a['secs']
+        if a['sat']:
+            o.verdict = 'sat'
+            o.model_vals = a['mv']
+        elif a['unknown']:
+            o.verdict = 'unknown'
+        else:
+            o.verdict = 'unsat'
+    eng.queries_discharged = len(tasks)
     return obls
